@@ -1,5 +1,6 @@
 import SdJwt.Exec.Wire
 import SdJwt.Impl.Parts
+import SdJwt.Impl.Flows
 import SdJwt.Spec.RefVerify
 /-!
 Executable-only: the operations the correspondence harness can ask for, one JSON object per
@@ -105,12 +106,73 @@ def opTree (req : J) : J :=
             ("path", match paths.find? (·.2 = d.digest) with | some (p, _) => S p | none => .null)])),
          ("projects", .arr (shows.map fun dgs => T.project (fun g => dgs.contains g)))]
 
+/-! ## holder / verifier flows -/
+
+def decodeSeg (s : String) : Option J := decodeDisc s
+
+/-- (header, payload) of a compact JWT as the driver itself decodes them -/
+def peekJwt (jwt : String) : Option (J × J) :=
+  match jwt.splitOn "." with
+  | [h, p, _] =>
+    match decodeSeg h, decodeSeg p with
+    | some hj, some pj => some (hj, pj)
+    | _, _ => none
+  | _ => none
+
+/-- the runtime for one request: hashing/decoding by `Exec/`, the JWT library's verdicts
+(`jwt_ok`, `kb_ok`: known to the harness by construction of the case) as given -/
+def rtFor (req : J) : Impl.Rt :=
+  { hash := b64Hash
+    decodeDisc := decodeDisc
+    decodeClaims := decodeSeg
+    jwtDecode := fun jwt =>
+      if jbool req "jwt_ok" then
+        match peekJwt jwt with
+        | some (h, p) => match p with
+          | .obj _ => .ok (h, p)
+          | _ => .err .jwt
+        | none => .err .jwt
+      else .err .jwt
+    kbDecode := fun kb _ =>
+      if jbool req "kb_ok" then
+        match peekJwt kb with
+        | some (h, p) => match p with
+          | .obj _ => .ok (h, p)
+          | _ => .err .jwt
+        | none => .err .jwt
+      else .err .jwt }
+
+def opFlow (req : J) : J :=
+  let rt := rtFor req
+  let tok := jstr req "token"
+  match jstr req "entry" with
+  | "holder_verify" =>
+    outcomeJ (fun (h, c, ps) => mkObj [("header", h), ("claims", c), ("paths", pathsJ ps)]) (Impl.Holder.verify rt tok)
+  | "verifier_verify" =>
+    outcomeJ (fun (h, c) => mkObj [("header", h), ("claims", c)]) (Impl.Verifier.verify rt tok (jbool req "policy"))
+  | "holder_build" =>
+    let kb : Option Impl.KbParams := match jget req "kb_params" with
+      | some (.obj _) => some { aud := jstr ((jget req "kb_params").getD .null) "aud", alg := jstr ((jget req "kb_params").getD .null) "alg" }
+      | _ => none
+    let redacted := strs (jarr req "redacted")
+    let r := match Impl.Holder.presentation rt tok with
+      | .ok h => Impl.Holder.build rt h redacted kb (jstr req "nonce") ((jint? req "now").getD 0)
+      | .err e => .err e
+      | .panic => .panic
+    outcomeJ (fun (pre, spec) => mkObj [("prefix", S pre),
+      ("kb", match spec with
+        | some k => mkObj [("typ", S k.typ), ("alg", S k.alg), ("aud", S k.aud), ("nonce", S k.nonce),
+                           ("iat", .num k.iat 0), ("sd_hash", S k.sdHash)]
+        | none => .null)]) r
+  | e => mkObj [("error", S ("unknown entry " ++ e))]
+
 def dispatch (req : J) : J :=
   match jstr req "op" with
   | "hash" => opHash req
   | "parts" => opParts req
   | "restore" => opRestore req
   | "tree" => opTree req
+  | "flow" => opFlow req
   | "ping" => mkObj [("pong", .bool true)]
   | op => mkObj [("error", S ("unknown op " ++ op))]
 
